@@ -15,6 +15,7 @@ mod c09;
 mod c10;
 mod c11;
 mod c13;
+mod c14;
 mod c18;
 mod frames;
 
@@ -35,6 +36,7 @@ fn table(id: &str) -> Option<(RunFn, ReplayFn)> {
         "C10" => (c10::run, c10::replay),
         "C11" => (c11::run, c11::replay),
         "C13" => (c13::run, c13::replay),
+        "C14" => (c14::run, c14::replay),
         "C18" => (c18::run, c18::replay),
         _ => return None,
     })
